@@ -180,6 +180,8 @@ def build_inputs(env, native=True, form='df', perm=None, tmpdir=None):
                 dps[n] = path
             else:
                 raise ValueError(form)
+        elif 'set' in x:
+            continue                # a value domain: value_domains(env)
         else:
             scalars.append({'name': n, 'type': x['t']})
             svals[n] = values.dec(x['v'])
@@ -187,6 +189,12 @@ def build_inputs(env, native=True, form='df', perm=None, tmpdir=None):
     if scalars:
         ds['scalars'] = scalars
     return ds, dps, svals
+
+
+def value_domains(env):
+    """value domains of a spec environment in the form run(value_domains=...) takes"""
+    out = [{'name': n, 'type': x['t'], 'setlist': [values.dec(v) for v in x['set']]} for n, x in env.items() if 'set' in x]
+    return out or None
 
 
 def run_unit(u):
@@ -215,6 +223,9 @@ def run_unit(u):
         elif u.get('via') == 'sdmx':          # C25: ... through generate_sdmx(); the TransformationScheme is what is run
             from vtlengine import generate_sdmx
             script = generate_sdmx(text, agency_id='MD', id='TS1')
+        vds = value_domains(u['env'])
+        if vds:
+            kw['value_domains'] = vds
         r = run(script=script, data_structures=ds, datapoints=dps, scalar_values=svals or None,
                 return_only_persistent=False, **kw)
         res = r[u.get('result', 'R')]
